@@ -46,6 +46,7 @@ let sev_of = function
 let gev_of = function
   | ["configure"; v0; v1; n0; n1] -> GConfigure (okb v0, okb v1, ni n0, ni n1)
   | ["startcall"] -> GStartCall | ["startret"; r] -> GStartRet (okb r)
+  | ["startrefused"] -> GStartRefused
   | ["stopcall"] -> GStopCall | ["stopret"] -> GStopRet
   | ["abortcall"] -> GAbortCall | ["abortret"] -> GAbortRet
   | ["shutdowncall"] -> GShutdownCall | ["shutdownret"] -> GShutdownRet
